@@ -6,6 +6,7 @@ import (
 	"io"
 	"os"
 	"sort"
+	"strings"
 )
 
 // Sel is the controller-chosen priority order of one select statement.
@@ -283,7 +284,28 @@ func OSWriteFile(name string, data []byte, perm os.FileMode) error {
 	if deadCaller() {
 		return &os.PathError{Op: "open", Path: name, Err: errDead}
 	}
-	return os.WriteFile(name, data, perm)
+	// os.WriteFile is open(O_TRUNC), write, close: between the first two the
+	// file is empty, which is a state a crash (or an observer) can meet
+	f, err := os.OpenFile(name, os.O_WRONLY|os.O_CREATE|os.O_TRUNC, perm)
+	if err != nil {
+		return err
+	}
+	site := "os/writefile"
+	if s := cur.Load(); s != nil {
+		if g := s.self(); g != nil && g.site != "" {
+			site = strings.TrimSuffix(g.site, "/fs") + "+truncated"
+		}
+	}
+	Yield(site + "/fs")
+	if deadCaller() {
+		f.Close()
+		return &os.PathError{Op: "write", Path: name, Err: errDead}
+	}
+	_, err = FileWrite(f, data)
+	if err1 := f.Close(); err1 != nil && err == nil {
+		err = err1
+	}
+	return err
 }
 
 func OSTruncate(name string, size int64) error {
